@@ -31,6 +31,22 @@ Theorem C17_absolute_independent_of_includer : forall b1 b2 u, is_url_spec u || 
 Proof. exact ufr_absolute_any_base. Qed.
 Print Assumptions C17_absolute_independent_of_includer.
 
+(* a resolved absolute location is a fixed point of resolution (pathlib normalisation is idempotent): handing it down
+   the include tree, or resolving it again from any includer, does not change it *)
+Theorem C17_path_normalisation_idempotent : forall p, path_str (path_str p) = path_str p.
+Proof. exact path_str_idempotent. Qed.
+Print Assumptions C17_path_normalisation_idempotent.
+
+Theorem C17_absolute_path_fixed : forall b1 b2 u, starts_with_slash u = true ->
+  exists r, url_file_relative b1 u = Some r /\ url_file_relative b2 r = Some r /\ starts_with_slash r = true.
+Proof. exact ufr_absolute_path_fixed. Qed.
+Print Assumptions C17_absolute_path_fixed.
+
+Theorem C17_absolute_url_fixed : forall b1 b2 u, is_url_spec u = true ->
+  url_file_relative b1 u = Some u /\ url_file_relative b2 u = Some u.
+Proof. exact ufr_absolute_url_fixed. Qed.
+Print Assumptions C17_absolute_url_fixed.
+
 (* relative references stay inside the includer's directory ... *)
 Theorem C17_relative_url_base : forall base u,
   is_url_spec u = false -> starts_with_slash u = false -> is_url_spec base = true ->
